@@ -1305,6 +1305,8 @@ func (vc *FnVC) doAppend(res ssa.Value, c *ssa.CallCommon, st *State) {
 		q := vc.enc.freshName("qi")
 		vc.assume("(forall ((" + q + " Int)) (=> (and (<= 0 " + q + ") (< " + q + " (sl-len " + s + "))) (= (select " + nc + " " + q + ") (select " + oldArr + " " + q + "))))")
 		vc.assume("(forall ((" + q + " Int)) (=> (and (<= 0 " + q + ") (< " + q + " " + n + ")) (= (select " + nc + " (+ " + base + " " + q + ")) (select " + tArr + " " + q + "))))")
+		// the same fact indexed by the position in the result (an index term e-matching can bind)
+		vc.assume("(forall ((" + q + " Int)) (! (=> (and (<= " + base + " " + q + ") (< " + q + " (+ " + base + " " + n + "))) (= (select " + nc + " " + q + ") (select " + tArr + " (- " + q + " " + base + ")))) :pattern ((select " + nc + " " + q + "))))")
 		newContent = nc
 	}
 	r := vc.newRef(st, "arr")
